@@ -22,7 +22,8 @@ or {"kind": "flow_removed", "key", "match", "priority", "cookies": set, "reasons
 
 Rules implemented (section 4.6):
   ADD      CHECK_OVERLAP: refuse (OFPFMFC_OVERLAP) when an existing entry of the same priority overlaps
-           (a single packet may match both); else an entry with identical match and priority is
+           (a single packet may match both); between an exact-match and a wildcarded entry with equal
+           priority fields either verdict is accepted (field or rank?), whatever other entries exist; else an entry with identical match and priority is
            replaced (counters cleared, no flow-removed); else inserted; ALL_TABLES_FULL when full.
            EMERG with a non-zero timeout: OFPFMFC_BAD_EMERG_TIMEOUT; other EMERG adds never touch the
            normal table (a switch without an emergency table answers with some FLOW_MOD_FAILED error).
@@ -92,23 +93,35 @@ class RefTable(object):
       out.append(e)
     return out
 
-  def _add(self, now, fm, skip_overlap=False):
+  def _add(self, now, fm, skip_overlap=False, refused=False):
     if fm["flags"] & W.OFPFF_EMERG:
       if fm["idle"] != 0 or fm["hard"] != 0:
         return [{"kind": "error", "xid": fm["xid"], "etype": W.OFPET_FLOW_MOD_FAILED,
                  "codes": {W.OFPFMFC_BAD_EMERG_TIMEOUT}, "optional": False}]
       return [{"kind": "error", "xid": fm["xid"], "etype": W.OFPET_FLOW_MOD_FAILED, "codes": None, "optional": True}]
     if (fm["flags"] & W.OFPFF_CHECK_OVERLAP) and not skip_overlap:
+      new_exact = M.is_exact(fm["match"])
+      unsettled = False
       for e in self.entries:
-        if e.priority == fm["priority"] and M.overlaps(e.match, fm["match"]):
-          if e.canon == M.canon(fm["match"]):
-            how = "identical"
-          elif M.subsumes(e.match, fm["match"]) or M.subsumes(fm["match"], e.match):
-            how = "nested"
-          else:
-            how = "partial"
-          return [{"kind": "error", "xid": fm["xid"], "etype": W.OFPET_FLOW_MOD_FAILED,
-                   "codes": {W.OFPFMFC_OVERLAP}, "optional": False, "detail": how}]
+        if e.priority != fm["priority"] or not M.overlaps(e.match, fm["match"]):
+          continue
+        if M.is_exact(e.match) != new_exact:
+          # an exact-match entry and a wildcarded one with equal priority FIELDS: the specification
+          # does not say whether "the same priority" means the field or the rank (an exact entry
+          # outranks everything): a refusal is accepted, and so is an installation
+          unsettled = True
+          continue
+        if e.canon == M.canon(fm["match"]):
+          how = "identical"
+        elif M.subsumes(e.match, fm["match"]) or M.subsumes(fm["match"], e.match):
+          how = "nested"
+        else:
+          how = "partial"
+        return [{"kind": "error", "xid": fm["xid"], "etype": W.OFPET_FLOW_MOD_FAILED,
+                 "codes": {W.OFPFMFC_OVERLAP}, "optional": False, "detail": how}]
+      if unsettled and refused:
+        return [{"kind": "error", "xid": fm["xid"], "etype": W.OFPET_FLOW_MOD_FAILED,
+                 "codes": {W.OFPFMFC_OVERLAP}, "optional": False, "detail": "exact-vs-wildcard"}]
     new = Entry(fm, now)
     same = [e for e in self.entries if e.key == new.key]
     if not same and self.max_entries is not None and len(self.entries) >= self.max_entries:
@@ -118,16 +131,19 @@ class RefTable(object):
     self.entries.append(new)
     return []
 
-  def flow_mod(self, now, fm, skip_overlap=False):
+  def flow_mod(self, now, fm, skip_overlap=False, refused=False):
     """skip_overlap: apply the command as if the overlap check had passed (used by a harness that has
-    recorded a switch's failure to refuse and wants to keep following it)."""
+    recorded a switch's failure to refuse and wants to keep following it).
+    refused: the switch answered this command with OFPFMFC_OVERLAP; only consulted where the
+    specification leaves the overlap verdict open (exact-match vs wildcarded entry with equal priority
+    fields), so that the model follows the switch there."""
     cmd = fm["command"]
     if cmd == W.OFPFC_ADD:
-      return self._add(now, fm, skip_overlap)
+      return self._add(now, fm, skip_overlap, refused)
     if cmd in (W.OFPFC_MODIFY, W.OFPFC_MODIFY_STRICT):
       hit = self._select(fm, cmd == W.OFPFC_MODIFY_STRICT, False)
       if not hit:
-        return self._add(now, fm, skip_overlap)
+        return self._add(now, fm, skip_overlap, refused)
       for e in hit:
         e.actions = bytes(fm["actions"])
         e.cookies = e.cookies | {fm["cookie"]}
